@@ -47,8 +47,14 @@
    the second pass changes nothing: [build_all] is the single pass,
    [build_two_pass] the code's two, C05_retry_pass_irrelevant their equality.
 
-   Not modelled: YAML decoding, URL / path-parameter handling, the filter tree
-   (AddFlow), quota files (tested only), what processors do inside Execute. *)
+   This file starts from DECODED configurations.  The decode step (files as
+   bytes: no document / decoder error / object; the order in which quota,
+   path-parameter, flow and processor-definition files are read) is Decode.v,
+   whose last stage is [load] below.
+
+   Not modelled: YAML decoding of files with content, URL / path-parameter
+   handling, the filter tree (AddFlow), the quota loader's own validation
+   (tested only), what processors do inside Execute. *)
 From Coq Require Import List ZArith Bool.
 From Verif Require Import C04.Model.
 Import ListNotations.
